@@ -825,13 +825,25 @@ pub fn rand_eval(rng: &mut Rng, labels: &[(String, usize)]) -> Cmd {
     Cmd::Eval(rng.pick(&forms).replace("{}", &lbl))
 }
 
+/// A word to store with `move`: half of the time one that means something to the debugger itself
+/// (HALT, the call and return instructions `step` / `step out` look for, a branch to itself, other
+/// traps, a NOP) — what the debugger decides from the word at the PC must be decided from memory as
+/// it is now, not as it was loaded.
+pub fn move_value(rng: &mut Rng) -> u16 {
+    if rng.chance(1, 2) {
+        *rng.pick(&[0xF025u16, 0xF025, 0x4800, 0x4801, 0x4FFF, 0x4040, 0x41C0, 0xC1C0, 0xD800, 0xDC00, 0xDC01, 0x0FFF, 0x0000, 0xF021, 0xF0FF, 0x8000])
+    } else {
+        rng.u16()
+    }
+}
+
 pub fn rand_mutating(rng: &mut Rng, orig: u16, n: usize, labels: &[(String, usize)]) -> Cmd {
     if rng.chance(1, 6) {
         return rand_eval(rng, labels);
     }
     match rng.below(6) {
         0 | 1 => Cmd::MoveReg(rng.below(8) as u8, *rng.pick(&[0u16, 1, 0x7FFF, 0x8000, 0xFFFF, 0x1234])),
-        2 | 3 => Cmd::MoveMem(rand_loc(rng, orig, n, labels), rng.u16()),
+        2 | 3 => Cmd::MoveMem(rand_loc(rng, orig, n, labels), move_value(rng)),
         4 => Cmd::Goto(rand_loc(rng, orig, n, labels)),
         _ => Cmd::Reset,
     }
@@ -1030,6 +1042,13 @@ fn small_programs() -> Vec<(u16, Vec<u16>, bool, &'static str)> {
         // origin, the word there is not the assembled one (what `reset` puts back must be what runs)
         (0x3000, vec![0x31FF, 0x1261, 0x0FFD, 0xF025], false, "overwrite-origin"),
         (0x0000, vec![0x1021, 0x1021, 0x1021, 0xF025, 0x0000], false, "origin-zero"),
+        // the program stores a HALT / a JSR onto its own path: what the debugger does at that
+        // address (refuse to run on, step over the call) depends on the word that is there NOW
+        (0x3000, vec![0x2004, 0x3001, 0x1261, 0x1261, 0xF025, 0xF025], false, "store-halt-ahead"),
+        (0x3000, vec![0x2006, 0x3001, 0x1261, 0x1261, 0x14A1, 0xF025, 0xC1C0, 0x4802], false, "store-jsr-ahead"),
+        // … and removes a HALT / a JSR that was assembled there
+        (0x3000, vec![0x2004, 0x3001, 0x1261, 0xF025, 0x14A1, 0x1261, 0xF025], false, "store-over-halt"),
+        (0x3000, vec![0x2006, 0x3001, 0x1261, 0x4802, 0x14A1, 0xF025, 0xC1C0, 0x1261], false, "store-over-jsr"),
         (0x0001, vec![0x1021, 0x1021, 0xF025], false, "origin-one"),
     ]
 }
@@ -1494,7 +1513,7 @@ fn gen_case(rng: &mut Rng, tag: &'static str) -> (DbgCase, &'static str) {
             for _ in 0..rng.range(1, 5) {
                 let l = rand_loc(rng, p.orig, n, &c.labels);
                 cmds.push(match rng.below(9) {
-                    0 => Cmd::MoveMem(l, rng.u16()),
+                    0 => Cmd::MoveMem(l, move_value(rng)),
                     1 => Cmd::Goto(l),
                     2 => Cmd::BreakAdd(l),
                     3 => Cmd::BreakRemove(l),
